@@ -3,6 +3,7 @@ import B6.Lemmas.Posting
 import B6.Lemmas.PostingTable
 import B6.Lemmas.PostingAdvance
 import B6.Lemmas.PostingAdvance2
+import B6.Lemmas.PostingMarshal
 import B6.Spec.Cursor
 /-!
 # C08 — Posting lists decode to exactly the IDs encoded
@@ -31,6 +32,15 @@ theorem posting_roundtrip (token : Bytes) (ids : List Id) (hv : ValidIds ids) (h
 theorem posting_roundtrip_encode (ids : List Id) (hv : ValidIds ids) (hs : SortedIds ids) :
     drain ⟨(encode ids).1, (encode ids).2⟩ = some ids :=
   drain_fill [] ids hv hs
+
+/-- **posting_roundtrip_bytes**: the same through the wire format — `NewIterator` on the bytes written by
+`PostingList.Marshal` drains to exactly the ids (token length, count and buffer length fit `uint64`,
+TypeAndNamespace fits `uint16`). -/
+theorem posting_roundtrip_bytes (token : Bytes) (ids : List Id) (hv : ValidIds ids) (hs : SortedIds ids)
+    (htn : ∀ id ∈ ids, id.1 < 65536) (htok : token.length < 2 ^ 64) (hcount : ids.length < 2 ^ 64)
+    (hbuf : (fill token ids).ids.length < 2 ^ 64) :
+    (unmarshal (marshal (fill token ids))).bind drain = some ids :=
+  drain_unmarshal_marshal_fill token ids hv hs htn htok hcount hbuf
 
 /-- the encoder does not even need the `TypeAndNamespace`s to increase: it is enough that values do not
 decrease inside a run of equal `TypeAndNamespace` (`Chain`) — this is the exact domain of `Fill`/`Next`. -/
